@@ -9,6 +9,50 @@ claim("C18",
       "The status tables in the spec are transcribed from the doc comments and bodies of StatusCode/EncodeError.",
       "TLC exhaustive model checking + TLC-generated vectors replayed on real code + TLC trace validation", "DESIGN.md 6 (C18)")
 
+
+HTTP_NOTE = ("Trusted: genhost (abstract design -> public DSL calls), mkrunner/rt (reflection glue, tap through net/http request serialisation and "
+             "re-parsing), the concretisation/projection functions in vlib/httpgen.py, encoding/json, go build. TLC enumerates one-attribute method shapes "
+             "exhaustively (quick: a seeded 20-25% sample of the shapes, thorough: all of them plus simulated two-attribute methods); "
+             "verdicts come only from the behaviour of the real generated code.")
+
+claim("C01",
+      "Toolchain.tla (stage machine dsl->eval->gen->example->typecheck, invariant AcceptedNeverFailsLater) is model-checked; programs are the method shapes TLC "
+      "enumerates from the transport envelope (kind x location x nesting x required/optional/default x rule, tagged responses), each packed into a design, "
+      "pushed through the real DSL, eval, gen and example generators and compiled with go build; the recorded stage outcomes are validated by TLC as a trace "
+      "of Toolchain.tla. Uncompilable methods are re-generated alone to confirm the failure.",
+      HTTP_NOTE + " goa.design/clue (imported by example output, absent offline) is a type-level stub (stubs/clue).",
+      "TLC-enumerated programs run through the real toolchain + TLC trace validation of stage outcomes", "DESIGN.md 6 (C01)")
+claim("C02",
+      "HTTPTransport.tla (client encode -> wire -> route -> server decode -> validate -> invoke, oracle AllowedWhere/AllowedDelivered vs mechanism with named "
+      "deviations) is model-checked exhaustively for one-attribute methods; every (shape, value class) case is sent through the real generated client, a "
+      "socket-faithful tap and the real generated server into a recording stub, and wire location + delivered value are judged against the oracle sets; "
+      "mismatches are explained (or not) by re-running the mechanism under each named deviation (Explain_HTTPTransport).",
+      HTTP_NOTE, "TLC exhaustive model checking + TLC-generated cases replayed on generated code", "DESIGN.md 6 (C02, C03)")
+claim("C03",
+      "Result family of HTTPTransport.tla: every (result shape, value class, tagged response) case is returned by the stub behind the real generated server and "
+      "read back by the real generated client; status code, response location of each attribute and the returned value are judged against the oracle sets.",
+      HTTP_NOTE, "TLC exhaustive model checking + TLC-generated cases replayed on generated code", "DESIGN.md 6 (C02, C03)")
+claim("C04",
+      "Valid, boundary-invalid and absent values for every rule x kind x nesting x location enumerated by TLC; the model's oracle (Satisfies/Violates, "
+      "ViolationNames) decides must-invoke / must-reject, the stub records whether user code ran, status and error name come from the wire; the client side "
+      "is exercised by having the stub return results that violate the result constraints.",
+      HTTP_NOTE + " Constraints apply to present values (JSON-Schema reading); zero values of defaulted fields are undetermined by design.",
+      "TLC exhaustive model checking + TLC-generated cases replayed on generated code", "DESIGN.md 6 (C04)")
+claim("C15",
+      "Negotiation.tla (ChooseEncoder, SetContentType, Encode, ChooseDecoder, Decode; request side with 415) is model-checked exhaustively over Accept classes x "
+      "designed types x pre-set headers x value kinds; every case runs on the real goahttp encoders/decoders with the written body format sniffed by stdlib "
+      "decoders; enumerated and random cases are validated by TLC as traces.",
+      "Trusted: the 99-entry table of stdlib mime.ParseMediaType facts (re-checked by the driver at run time), stdlib json/xml/gob decoders used to sniff the body, httptest.",
+      "TLC exhaustive model checking + vectors replayed on real code + TLC trace validation", "DESIGN.md 6 (C15)")
+
+claim("C19",
+      "Middleware.tla (request-id trust/truncate/fresh, trace keep/sample/skip, traced client forwarding, ResponseCapture counters; chains of 1-4 hops) is "
+      "model-checked in three slices with 15 deviation guards; every enumerated case runs on the real HTTP middlewares (httptest, WrapDoer chain) and on the "
+      "real gRPC unary/stream interceptors (synthetic info/streams, no network) and must be one of the behaviours TLC allows; random cases are validated as traces.",
+      "Trusted: the projection of concrete ids to tokens (provenance by prefix), injected TraceIDFunc/SpanIDFunc counters, httptest.ResponseRecorder as the "
+      "reference for what was written; fresh request ids assumed 8 characters.",
+      "TLC exhaustive model checking + vectors replayed on real code + TLC trace validation", "DESIGN.md 6 (C19)")
+
 for p in ALL:
     if p not in CLAIMED:
         NOT_APPLICABLE[p] = "check not built yet in this revision (planned with the same technique, see DESIGN.md section 6)"
